@@ -50,6 +50,81 @@ fn upper_tails(mean: f64, kmax: usize, lnf: &[f64]) -> Vec<f64> {
     tails
 }
 
+/// Means of 10^6 .. 8*10^6: the oracle anchors the mass function at the mode (Stirling series) and
+/// extends it by the exact ratio p(k+1)/p(k) = mean/(k+1) over +-60 standard deviations; tails are summed
+/// from the far end. The library's own cumulative sum over millions of terms is accurate to about 1e-9
+/// absolute, hence epsilon in [1e-7, 1e-6] and a 1% band on the tail probability.
+fn huge_mean_case(rng: &mut Rng, rep: &mut CaseReport) {
+    let mean_target = 10f64.powf(6.0 + 0.9 * rng.f64());
+    let rate = *rng.pick(&[0.25f64, 0.5, 1.0, 2.0]);
+    let delta = (mean_target / rate).round() as u64;
+    let mean = rate * delta as f64;
+    let eps = 10f64.powf(-7.0 + rng.f64());
+    rep.sample = Some(jobj! {"rate" => rate, "epsilon" => eps, "delta" => delta, "mean" => mean, "huge_mean" => true});
+    rep.count("means_above_10^6", 1);
+    let sd = mean.sqrt();
+    let mode = mean.floor() as u64;
+    let lo = mode - (60.0 * sd) as u64;
+    let hi = mode + (60.0 * sd) as u64;
+    // ln p(mode) = -m + k ln m - ln k!,  ln k! = k ln k - k + ln(2 pi k)/2 + 1/(12k) - 1/(360k^3)
+    let k = mode as f64;
+    let x = (mean - k) / k;
+    let ln_p_mode = k * (x.ln_1p() - x) - 0.5 * (2.0 * std::f64::consts::PI * k).ln() - 1.0 / (12.0 * k) + 1.0 / (360.0 * k * k * k);
+    let n = (hi - lo + 1) as usize;
+    let mut p = vec![0.0f64; n];
+    let mi = (mode - lo) as usize;
+    p[mi] = ln_p_mode.exp();
+    for i in mi + 1..n {
+        p[i] = p[i - 1] * mean / ((lo + i as u64) as f64);
+    }
+    for i in (0..mi).rev() {
+        p[i] = p[i + 1] * ((lo + i as u64 + 1) as f64) / mean;
+    }
+    // tails[i] = P[N > lo + i] (mass beyond hi is below 1e-300)
+    let mut tails = vec![0.0f64; n];
+    let mut acc = 0.0f64;
+    for i in (0..n - 1).rev() {
+        acc += p[i + 1];
+        tails[i] = acc;
+    }
+    let total: f64 = acc + p[0];
+    if (total - 1.0).abs() > 1e-9 {
+        rep.inconclusive = Some(format!("huge-mean oracle self-check failed: mass in window = {}", total));
+        return;
+    }
+    let nstar = lo + (0..n).find(|i| tails[*i] <= eps).unwrap() as u64;
+    let detail = |extra: crate::json::Json| jobj! {"rate"=>rate,"epsilon"=>eps,"delta"=>delta,"mean"=>mean,"oracle_quantile"=>nstar,"observation"=>extra};
+    let ap = ApproximatedPoisson::new(rate, eps);
+    let fuel = nstar + 200_000;
+    match guard_fuel(fuel, || ap.number_arrivals(Duration::from(delta))) {
+        Err(c) if c.kind == "fuel" => rep.violation("C15 kind=does-not-terminate-within-budget mean>10^6".to_string(), detail(jobj! {"budget_iterations"=>fuel,"caught"=>c.to_json()})),
+        Err(c) => rep.violation(format!("C15 kind=panic class={}", c.class()), detail(c.to_json())),
+        Ok(got) => {
+            let got = got as u64;
+            rep.count("quantiles_checked", 1);
+            let t = |k: u64| if k < lo { 1.0 } else if k > hi { 0.0 } else { tails[(k - lo) as usize] };
+            if t(got) > eps * 1.01 {
+                rep.violation("C15 kind=quantile-too-small (exceedance probability above epsilon) mean>10^6".to_string(), detail(jobj! {"number_arrivals"=>got,"P[N>n]"=>t(got)}));
+            } else if got > 0 && t(got - 1) <= eps * 0.99 {
+                rep.violation("C15 kind=quantile-not-the-smallest mean>10^6".to_string(), detail(jobj! {"number_arrivals"=>got,"P[N>n-1]"=>t(got - 1)}));
+            } else {
+                rep.nontrivial_key(&[rate.to_bits(), eps.to_bits(), delta]);
+            }
+        }
+    }
+    let po = Poisson { rate };
+    for off in [0i64, 1, -1, (sd / 2.0) as i64, -(sd / 2.0) as i64, sd as i64, -(sd as i64), 2 * sd as i64, -2 * (sd as i64), 4 * sd as i64] {
+        let k = (mode as i64 + off) as u64;
+        let want = p[(k - lo) as usize];
+        let got = po.arrival_probability(Duration::from(delta), k as usize);
+        rep.count("mass_function_values_compared", 1);
+        if !(got.is_finite() && (got - want).abs() <= 2e-8 * want) {
+            rep.violation("C15 kind=arrival_probability-differs-from-poisson-pmf mean>10^6".to_string(), detail(jobj! {"k"=>k,"arrival_probability"=>got,"poisson_pmf"=>want,"relative_difference"=>(got - want).abs() / want}));
+            break;
+        }
+    }
+}
+
 const RATES: [f64; 8] = [0.001, 0.01, 0.1, 0.5, 1.0, 2.0, 3.0, 10.0];
 const EPSILONS: [f64; 8] = [1e-12, 1e-9, 1e-6, 1e-4, 1e-3, 0.01, 0.1, 0.5];
 const MEANS: [f64; 18] = [0.001, 0.01, 0.1, 0.5, 1.0, 2.0, 5.0, 10.0, 30.0, 80.0, 120.0, 150.0, 200.0, 400.0, 700.0, 800.0, 2000.0, 5000.0];
@@ -78,9 +153,17 @@ impl Monitor for C15 {
         vec!["quantiles_checked", "mass_function_values_compared", "means_above_125", "means_above_745"]
     }
 
-    fn run_case(&self, index: u64, seed: u64, _tier: Tier, rep: &mut CaseReport) {
+    fn run_case(&self, index: u64, seed: u64, tier: Tier, rep: &mut CaseReport) {
         let mut rng = Rng::new(seed);
         let grid = (RATES.len() * EPSILONS.len() * MEANS.len()) as u64;
+        // the last few cases of a run: means in the millions (see `huge_mean_case`)
+        let huge = match tier {
+            Tier::Quick => 2,
+            Tier::Thorough => 12,
+        };
+        if index + huge >= self.cases(tier) {
+            return huge_mean_case(&mut rng, rep);
+        }
         let (rate, eps, delta) = if index < grid {
             let i = index as usize;
             let rate = RATES[i % RATES.len()];
@@ -129,7 +212,8 @@ impl Monitor for C15 {
         let lnf = ln_factorials(kmax + 2);
         let tails = upper_tails(mean, kmax, &lnf);
         let nstar = (0..kmax).find(|n| tails[*n] <= eps).unwrap_or(kmax);
-        let ap = ApproximatedPoisson::new(rate, eps);
+        // both public ways of constructing the bound
+        let ap = if index % 2 == 1 { Poisson { rate }.approximate(eps) } else { ApproximatedPoisson::new(rate, eps) };
         let po = Poisson { rate };
         let detail = |extra: crate::json::Json| jobj! {"rate"=>rate,"epsilon"=>eps,"delta"=>delta,"mean"=>mean,"oracle_quantile"=>nstar,"observation"=>extra};
 
@@ -159,6 +243,27 @@ impl Monitor for C15 {
                     );
                 } else if mean >= 1.0 && nstar > 0 {
                     rep.nontrivial_key(&[rate.to_bits(), eps.to_bits(), delta]);
+                }
+                // a second model with the same rate and another epsilon, asked the same question in between,
+                // must not influence the answer (and must itself be right)
+                if !tiny_eps {
+                    let eps2 = if eps < 1e-4 { (eps * 1e3).min(0.5) } else { (eps * 1e-3).max(1e-12) };
+                    let n2star = (0..kmax).find(|k| tails[*k] <= eps2).unwrap_or(kmax);
+                    let other = if index % 4 < 2 { Poisson { rate }.approximate(eps2) } else { ApproximatedPoisson::new(rate, eps2) };
+                    let f2 = n2star as u64 + (10.0 * mean.sqrt()) as u64 + 100;
+                    let r2 = guard_fuel(f2, || other.number_arrivals(Duration::from(delta)));
+                    let again = guard_fuel(fuel, || ap.number_arrivals(Duration::from(delta)));
+                    rep.count("interleaved_models_with_equal_rate_checked", 1);
+                    if let (Ok(n2), Ok(n_again)) = (&r2, &again) {
+                        let t2 = if *n2 < tails.len() { tails[*n2] } else { 0.0 };
+                        let ok2 = t2 <= eps2 * (1.0 + 1e-6) + abs_tol && (*n2 == 0 || (*n2 - 1 < tails.len() && tails[*n2 - 1] > eps2 * (1.0 - 1e-6) - abs_tol));
+                        if !ok2 || *n_again != n {
+                            rep.violation(
+                                format!("C15 kind=answer-depends-on-other-models-or-earlier-queries {}", band),
+                                detail(jobj! {"first_answer"=>n,"other_epsilon"=>eps2,"other_model_answer"=>*n2,"other_model_oracle_quantile"=>n2star,"first_model_asked_again"=>*n_again}),
+                            );
+                        }
+                    }
                 }
                 // monotone in delta
                 let mut prev = n;
